@@ -41,6 +41,7 @@ type c02Machine struct {
 	curN      int // batch size of the last call
 	noisy     func(output string) bool // is this output downstream of an alignment-sensitive float kernel?
 	depth     int
+	batchAxis func(input string) (int, bool) // symbolic batch axis of a graph input
 }
 
 func snapTensors(ts gonnx.Tensors) map[string]snapshot {
@@ -68,7 +69,8 @@ func newC02Machine(rt *rapid.T, desc string, b []byte, mk func(rt *rapid.T, n in
 		rt.Fatalf("C02: model does not load: %v %v (%s)", lr.err, lr.panicVal, desc)
 	}
 	return &c02Machine{desc: desc, bytes: b, m: lr.m, params: snapTensors(gonnx.VerifParameters(lr.m)), mkFeed: mk,
-		canBatch: canBatch, baseN: baseN, flags: map[string]bool{}, aliasable: aliasable, noisy: func(string) bool { return true }, depth: 20}
+		canBatch: canBatch, baseN: baseN, flags: map[string]bool{}, aliasable: aliasable, noisy: func(string) bool { return true }, depth: 20,
+		batchAxis: func(string) (int, bool) { return 0, false }}
 }
 
 // step performs one Run on the used model and checks every invariant.
@@ -208,6 +210,28 @@ func (mc *c02Machine) actions(rt *rapid.T) map[string]func(*rapid.T) {
 			mc.curN = n
 			mc.step(rt, fmt.Sprintf("batch=%d", n), mc.mkFeed(rt, n))
 		},
+		"runFailingInsideNode": func(rt *rapid.T) {
+			// inputs that satisfy the declared signature (symbolic batch axis) but are inconsistent
+			// with each other or with the weights, so that the call fails inside some node after
+			// earlier nodes have already run
+			feed := mc.mkFeed(rt, mc.lastN())
+			ks := sortedKeys(feed)
+			changed := false
+			for _, k := range ks {
+				ax, ok := mc.batchAxis(k)
+				if !ok || !rapid.Bool().Draw(rt, "resize") {
+					continue
+				}
+				s := cloneInts(feed[k].Shape())
+				s[ax] = s[ax]%4 + 1 + rapid.IntRange(0, 1).Draw(rt, "by")
+				feed[k] = mkT(s, smallF32s(rt, prod(s), 2, "inconsistent"))
+				changed = true
+			}
+			if !changed {
+				rt.Skip("nothing resized")
+			}
+			mc.step(rt, "inconsistent-batch", feed)
+		},
 		"runFailing": func(rt *rapid.T) {
 			feed := mc.mkFeed(rt, mc.baseN)
 			ks := sortedKeys(feed)
@@ -274,7 +298,7 @@ func ggAliasable(gg *ggraph) bool {
 
 func TestC02(t *testing.T) {
 	ev.Begin("C02",
-		"rapid state machine (t.Repeat) over one loaded Model. Models: generated DAGs of 1..6 nodes biased to the aliasing routes (a weight or caller tensor reaching Conv's bias, the initial state of RNN/GRU/LSTM, the operand of ArgMax/ReduceMax/ReduceMin, directly or through single-input Concat / same-shape Expand / Constant), half of them per-sample graphs whose batch size may change between calls; and the sample models gru, mlp, scaler, ndm. Actions: runFresh, runSameObjects (the very tensor objects of the previous call), runFeedback (an output object of the previous Run passed back in where shapes allow, e.g. hidden_out -> init_hidden), runOtherBatch, runFailing (missing input / wrong rank). "+
+		"rapid state machine (t.Repeat) over one loaded Model. Models: generated DAGs of 1..6 nodes biased to the aliasing routes (a weight or caller tensor reaching Conv's bias, the initial state of RNN/GRU/LSTM, the operand of ArgMax/ReduceMax/ReduceMin, directly or through single-input Concat / same-shape Expand / Constant), half of them per-sample graphs whose batch size may change between calls; and the sample models gru, mlp, scaler, ndm. Actions: runFresh, runSameObjects (the very tensor objects of the previous call), runFeedback (an output object of the previous Run passed back in where shapes allow, e.g. hidden_out -> init_hidden), runOtherBatch, runFailing (missing input / wrong rank: refused by validation), runFailingInsideNode (inputs that satisfy the signature but are inconsistent with each other or the weights, so the call fails inside a node after earlier nodes ran). "+
 			"Non-trivial = history of >= 2 calls containing same-object reuse, feedback, a batch change or a failing call followed by a good one, on a model with an alias route. Distinct = (model, action sequence).",
 		"invariants after every step: deep snapshots (shape, strides, dtype, raw backing bits) of caller tensors and of the weights (hook VerifParameters) unchanged; outputs bit-identical to a freshly loaded model run on deep copies of the pre-call inputs, including 'both fail'; outputs returned earlier unchanged")
 	defer reportKnownFindings("C02")
@@ -298,6 +322,11 @@ func TestC02(t *testing.T) {
 			noisyOut[v.name] = v.noisy
 		}
 		mc.noisy, mc.depth = func(k string) bool { return noisyOut[k] }, len(gg.nodes)
+		inAxis := map[string]int{}
+		for _, in := range gg.inputs {
+			inAxis[in.name] = in.batch
+		}
+		mc.batchAxis = func(k string) (int, bool) { a, ok := inAxis[k]; return a, ok }
 		mc.step(rt, "first", mc.mkFeed(rt, gg.batchN))
 		rt.Repeat(mc.actions(rt))
 		mc.record("generated")
@@ -316,6 +345,7 @@ func TestC02(t *testing.T) {
 		mc := newC02Machine(rt, "sample:"+sm.name, sm.bytes, func(rt *rapid.T, n int) gonnx.Tensors {
 			return sm.feed(rt, n, rapid.IntRange(1, 4).Draw(rt, "seq"))
 		}, true, rapid.IntRange(1, 3).Draw(rt, "baseN"), true)
+		mc.batchAxis = func(k string) (int, bool) { a := sm.batchAxis(k); return a, a >= 0 }
 		mc.step(rt, "first", mc.mkFeed(rt, mc.baseN))
 		rt.Repeat(mc.actions(rt))
 		mc.record("sample-models")
